@@ -443,6 +443,157 @@ theorem leavesTrees_perm (pre : List PSeg) {a b : List Tree} (h : a.Perm b) :
     (leavesTrees pre a).Perm (leavesTrees pre b) := by
   rw [leavesTrees_eq_flatMap, leavesTrees_eq_flatMap]; exact h.flatMap_right _
 
+theorem mapE_mem {α β ε} (f : α → Except ε β) :
+    ∀ (l : List α) (l' : List β), mapE f l = .ok l' → ∀ b ∈ l', ∃ a ∈ l, f a = .ok b
+  | [], l', h, b, hb => by simp [mapE] at h; subst h; simp at hb
+  | a :: l, l', h, b, hb => by
+    simp only [mapE] at h
+    split at h
+    · simp at h
+    · rename_i b0 hb0
+      split at h
+      · simp at h
+      · rename_i bs hbs
+        simp only [Except.ok.injEq] at h
+        subst h
+        rcases List.mem_cons.1 hb with rfl | hb
+        · exact ⟨a, by simp, hb0⟩
+        · obtain ⟨a', ha', hf⟩ := mapE_mem f l bs hbs b hb
+          exact ⟨a', by simp [ha'], hf⟩
+
+theorem mapE_length {α β ε} (f : α → Except ε β) :
+    ∀ (l : List α) (l' : List β), mapE f l = .ok l' → l'.length = l.length
+  | [], l', h => by simp [mapE] at h; subst h; rfl
+  | a :: l, l', h => by
+    simp only [mapE] at h
+    split at h
+    · simp at h
+    · split at h
+      · simp at h
+      · rename_i bs hbs
+        simp only [Except.ok.injEq] at h
+        subst h
+        simp [mapE_length f l bs hbs]
+
+theorem wfTrees_of_forall {r : Bool} : ∀ {ts : List Tree}, (∀ t ∈ ts, wfTree r t = true) →
+    wfTrees r ts = true
+  | [], _ => by simp [wfTrees]
+  | t :: ts, h => by
+    simp only [wfTrees, Bool.and_eq_true]
+    exact ⟨h t (by simp), wfTrees_of_forall (fun u hu => h u (by simp [hu]))⟩
+
+theorem innerAll_wfPath {r : Bool} {p : List Seg} (h : innerAll r p = true) : wfPath r p = true := by
+  rcases List.eq_nil_or_concat p with rfl | ⟨init, x, rfl⟩
+  · simp [wfPath]
+  · rw [List.concat_eq_append] at h ⊢
+    rw [innerAll_append, Bool.and_eq_true] at h
+    rw [wfPath_append _ _ _ (by simp), wfPath_single, h.1]
+    have hx := h.2
+    simp only [innerAll, Bool.and_true] at hx
+    have := innerOK_not_list hx
+    cases x <;> simp_all [wfLast, isList]
+
+theorem leavesTrees_filter_ne (pre : List PSeg) : ∀ (l : List Tree),
+    leavesTrees pre (l.filter (fun t => !t.path.isEmpty)) = leavesTrees pre l
+  | [] => rfl
+  | t :: l => by
+    simp only [List.filter_cons]
+    split
+    · simp [leavesTrees_cons, leavesTrees_filter_ne pre l]
+    · rename_i ht
+      simp only [Bool.not_eq_true, Bool.not_eq_false', List.isEmpty_iff] at ht
+      rw [leavesTrees_cons, leavesTrees_filter_ne pre l, leavesTree_eq, ht, leavesPath_nil]
+      rfl
+
+/-- The list a normalised list becomes: the elements with a non-empty path, sorted. -/
+theorem mem_sorted_kept {cmp : Tree → Tree → Ordering} {l : List Tree} {t : Tree}
+    (h : t ∈ RF.Sort.stableSort cmp (l.filter (fun t => !t.path.isEmpty))) : t ∈ l ∧ t.path ≠ [] := by
+  rw [mem_stableSort, List.mem_filter] at h
+  exact ⟨h.1, by simpa using h.2⟩
+
+/-- `normalize` keeps a path well-formed. -/
+theorem normPath_wf (cmp : Tree → Tree → Ordering) :
+    ∀ (fuel : Nat) (hasAttrs hasVis : Bool) (path q : List Seg) (r : Bool),
+      normPath cmp fuel hasAttrs hasVis path = .ok q → wfPath r path = true → wfPath r q = true := by
+  intro fuel
+  induction fuel with
+  | zero => intro _ _ _ _ _ h; simp [normPath] at h
+  | succ fuel ih =>
+    intro hasAttrs hasVis path q r h hwf
+    rw [normPath] at h
+    split at h
+    · simp at h
+    · rename_i last hlast
+      have hp := eq_dropLast_append hlast
+      generalize path.dropLast = rest at hp h
+      subst hp
+      have hwf0 := hwf
+      rw [wfPath_append _ _ _ (by simp), wfPath_single, Bool.and_eq_true] at hwf
+      obtain ⟨hin, hwl⟩ := hwf
+      simp only [] at h
+      split at h
+      · simp only [Except.ok.injEq] at h; subst h; simp [wfPath]
+      · split at h
+        · simp only [Except.ok.injEq] at h; subst h; simp [wfPath]
+        · split at h
+          · simp only [Except.ok.injEq] at h; subst h; exact innerAll_wfPath hin
+          · split at h
+            · rename_i rename n hlr _ _ _
+              simp only [Except.ok.injEq] at h; subst h
+              have hp := eq_dropLast_append hlr
+              generalize rest.dropLast = init at hp
+              subst hp
+              rw [innerAll_append, Bool.and_eq_true] at hin
+              rw [wfPath_append _ _ _ (by simp), wfPath_single, hin.1]
+              simp [wfLast]
+            · split at h
+              · rename_i l
+                split at h
+                · rename_i t ht
+                  obtain ⟨rfl, _⟩ := soleSplice_some ht
+                  simp only [wfLast, wfTrees, Bool.and_true] at hwl
+                  obtain ⟨htne, htwf⟩ := wfTree_path hwl
+                  exact ih _ _ _ _ r h (by rw [wfPath_append _ _ _ htne, hin, htwf]; rfl)
+                · split at h
+                  · simp at h
+                  · rename_i l2 hl2
+                    have hnorm : wfPath r (rest ++ [.list (RF.Sort.stableSort cmp
+                        (l2.filter (fun t => !t.path.isEmpty)))]) = true := by
+                      rw [wfPath_append _ _ _ (by simp), wfPath_single, hin]
+                      simp only [wfLast, Bool.true_and]
+                      apply wfTrees_of_forall
+                      intro t ht
+                      obtain ⟨htl, htne⟩ := mem_sorted_kept ht
+                      obtain ⟨t0, ht0, hf⟩ := mapE_mem _ _ _ hl2 t htl
+                      obtain ⟨p2, hp2, rfl⟩ := except_map_ok hf
+                      simp only [wfLast] at hwl
+                      obtain ⟨_, htwf⟩ := wfTree_path (wfTrees_mem hwl t0 ht0)
+                      have := ih _ _ _ _ _ hp2 htwf
+                      simp only [Tree.path] at htne
+                      simpa [wfTree, htne] using this
+                    split at h
+                    · exact ih _ _ _ _ r h hnorm
+                    · simp only [Except.ok.injEq] at h; subst h; exact hnorm
+              · simp only [Except.ok.injEq] at h; subst h; exact hwf0
+
+theorem norm_list_wf (cmp : Tree → Tree → Ordering) (fuel : Nat) (r : Bool) (rest : List Seg)
+    (l l2 : List Tree) (hin : innerAll r rest = true)
+    (hwl : wfLast (r && rest.isEmpty) (.list l) = true)
+    (hl2 : mapE (fun t => (normPath cmp fuel false false t.path).map Tree.mk) l = .ok l2) :
+    wfPath r (rest ++ [.list (RF.Sort.stableSort cmp (l2.filter (fun t => !t.path.isEmpty)))]) = true := by
+  rw [wfPath_append _ _ _ (by simp), wfPath_single, hin]
+  simp only [wfLast, Bool.true_and]
+  apply wfTrees_of_forall
+  intro t ht
+  obtain ⟨htl, htne⟩ := mem_sorted_kept ht
+  obtain ⟨t0, ht0, hf⟩ := mapE_mem _ _ _ hl2 t htl
+  obtain ⟨p2, hp2, rfl⟩ := except_map_ok hf
+  simp only [wfLast] at hwl
+  obtain ⟨_, htwf⟩ := wfTree_path (wfTrees_mem hwl t0 ht0)
+  have := normPath_wf cmp _ _ _ _ _ _ hp2 htwf
+  simp only [Tree.path] at htne
+  simpa [wfTree, htne] using this
+
 theorem normPath_leaves (cmp : Tree → Tree → Ordering) :
     ∀ (fuel : Nat) (hasAttrs hasVis : Bool) (path q : List Seg) (atRoot : Bool) (pre : List PSeg),
       normPath cmp fuel hasAttrs hasVis path = .ok q → wfPath atRoot path = true →
@@ -522,7 +673,7 @@ theorem normPath_leaves (cmp : Tree → Tree → Ordering) :
               simp [leavesLast, terminalLeaf, innerSeg]
               exact SetEq.refl _
             · split at h
-              · rename_i l
+              · rename_i l _ _ _ _
                 split at h
                 · -- foo::{bar} -> foo::bar
                   rename_i t ht
@@ -547,22 +698,30 @@ theorem normPath_leaves (cmp : Tree → Tree → Ordering) :
                   split at h
                   · simp at h
                   · rename_i l2 hl2
-                    simp only [Except.ok.injEq] at h; subst h
-                    rw [leavesPath_snoc _ _ _ _ hin, leavesPath_snoc _ _ _ _ hin]
-                    simp only [leavesLast]
-                    refine (SetEq.of_perm (leavesTrees_perm _ (stableSort_perm cmp l2))).trans ?_
-                    rw [leavesTrees_eq_flatMap, leavesTrees_eq_flatMap]
-                    apply mapE_flatMap_setEq _ _ _ _ _ hl2
-                    intro t ht b hb
-                    obtain ⟨p2, hp2, rfl⟩ := except_map_ok hb
-                    simp only [wfLast] at hwl
-                    obtain ⟨_, htwf⟩ := wfTree_path (wfTrees_mem hwl t ht)
-                    rw [leavesTree_mk, leavesTree_eq]
-                    apply ih _ _ _ _ _ _ hp2 htwf
-                    · intro hr
-                      simp only [Bool.and_eq_true, List.isEmpty_iff] at hr
-                      simp [hroot hr.1, hr.2]
-                    · simp
+                    have hkeep : SetEq (leavesPath pre (rest ++ [.list (RF.Sort.stableSort cmp
+                        (l2.filter (fun t => !t.path.isEmpty)))])) (leavesPath pre (rest ++ [.list l])) := by
+                      rw [leavesPath_snoc _ _ _ _ hin, leavesPath_snoc _ _ _ _ hin]
+                      simp only [leavesLast]
+                      refine (SetEq.of_perm (leavesTrees_perm _ (stableSort_perm cmp _))).trans ?_
+                      rw [leavesTrees_filter_ne, leavesTrees_eq_flatMap, leavesTrees_eq_flatMap]
+                      apply mapE_flatMap_setEq _ _ _ _ _ hl2
+                      intro t ht b hb
+                      obtain ⟨p2, hp2, rfl⟩ := except_map_ok hb
+                      simp only [wfLast] at hwl
+                      obtain ⟨_, htwf⟩ := wfTree_path (wfTrees_mem hwl t ht)
+                      rw [leavesTree_mk, leavesTree_eq]
+                      apply ih _ _ _ _ _ _ hp2 htwf
+                      · intro hr
+                        simp only [Bool.and_eq_true, List.isEmpty_iff] at hr
+                        simp [hroot hr.1, hr.2]
+                      · simp
+                    split at h
+                    · -- an element was removed: the tree is normalised again
+                      have hnorm := norm_list_wf cmp fuel atRoot rest l l2 hin hwl hl2
+                      refine (ih _ _ _ _ atRoot pre h hnorm hroot ?_).trans hkeep
+                      rintro ⟨_, _, he⟩
+                      cases rest <;> simp at he
+                    · simp only [Except.ok.injEq] at h; subst h; exact hkeep
               · simp only [Except.ok.injEq] at h; subst h
                 exact SetEq.refl _
 
@@ -591,6 +750,103 @@ theorem mapE_ok_of_forall {α β ε} (f : α → Except ε β) :
     obtain ⟨b, hb⟩ := h a (by simp)
     obtain ⟨bs, hbs⟩ := mapE_ok_of_forall f l (fun a' ha' => h a' (by simp [ha']))
     exact ⟨b :: bs, by simp [mapE, hb, hbs]⟩
+
+theorem treeSize_pos (t : Tree) : 1 ≤ treeSize t := by
+  cases t; simp only [treeSize]; omega
+
+theorem treesSize_perm {a b : List Tree} (h : a.Perm b) : treesSize a = treesSize b := by
+  induction h with
+  | nil => rfl
+  | cons x _ ih => simp [treesSize, ih]
+  | swap x y l => simp only [treesSize]; omega
+  | trans _ _ ih1 ih2 => omega
+
+theorem treesSize_filter (p : Tree → Bool) : ∀ l : List Tree,
+    treesSize (l.filter p) + (l.length - (l.filter p).length) ≤ treesSize l
+  | [] => by simp [treesSize]
+  | t :: l => by
+    have ih := treesSize_filter p l
+    have hle := List.length_filter_le p l
+    have hpos := treeSize_pos t
+    simp only [List.filter_cons]
+    split
+    · simp only [treesSize, List.length_cons]; omega
+    · simp only [treesSize, List.length_cons]; omega
+
+theorem mapE_treesSize {ε} (f : Tree → Except ε Tree) :
+    ∀ (l l' : List Tree), mapE f l = .ok l' →
+      (∀ a ∈ l, ∀ b, f a = .ok b → treeSize b ≤ treeSize a) → treesSize l' ≤ treesSize l
+  | [], l', h, _ => by simp [mapE] at h; subst h; simp [treesSize]
+  | a :: l, l', h, hf => by
+    simp only [mapE] at h
+    split at h
+    · simp at h
+    · rename_i b hb
+      split at h
+      · simp at h
+      · rename_i bs hbs
+        simp only [Except.ok.injEq] at h
+        subst h
+        have h1 := hf a (by simp) b hb
+        have h2 := mapE_treesSize f l bs hbs (fun a' ha' => hf a' (by simp [ha']))
+        simp only [treesSize]; omega
+
+/-- `normalize` never makes a path larger. -/
+theorem normPath_size (cmp : Tree → Tree → Ordering) :
+    ∀ (fuel : Nat) (hasAttrs hasVis : Bool) (path q : List Seg),
+      normPath cmp fuel hasAttrs hasVis path = .ok q → pathSize q ≤ pathSize path := by
+  intro fuel
+  induction fuel with
+  | zero => intro _ _ _ _ h; simp [normPath] at h
+  | succ fuel ih =>
+    intro hasAttrs hasVis path q h
+    rw [normPath] at h
+    split at h
+    · simp at h
+    · rename_i last hlast
+      have hp := eq_dropLast_append hlast
+      generalize path.dropLast = rest at hp h
+      subst hp
+      simp only [] at h
+      split at h
+      · simp only [Except.ok.injEq] at h; subst h; simp [pathSize]
+      · split at h
+        · simp only [Except.ok.injEq] at h; subst h; simp [pathSize]
+        · split at h
+          · simp only [Except.ok.injEq] at h; subst h; rw [pathSize_append]; omega
+          · split at h
+            · rename_i rename n hlr _ _ _
+              simp only [Except.ok.injEq] at h; subst h
+              have hp := eq_dropLast_append hlr
+              generalize rest.dropLast = init at hp
+              subst hp
+              simp only [pathSize_append, pathSize, segSize]; omega
+            · split at h
+              · rename_i l _ _ _ _
+                split at h
+                · rename_i t ht
+                  obtain ⟨rfl, _⟩ := soleSplice_some ht
+                  have := ih _ _ _ _ h
+                  rw [pathSize_append] at this ⊢
+                  simp only [pathSize, segSize, treesSize, treeSize_eq]; omega
+                · split at h
+                  · simp at h
+                  · rename_i l2 hl2
+                    have hsz2 : treesSize l2 ≤ treesSize l := by
+                      apply mapE_treesSize _ _ _ hl2
+                      intro t _ b hb
+                      obtain ⟨p2, hp2, rfl⟩ := except_map_ok hb
+                      have := ih _ _ _ _ hp2
+                      rw [treeSize_eq t]; simp only [treeSize]; omega
+                    have hk := treesSize_filter (fun t => !t.path.isEmpty) l2
+                    have hs := treesSize_perm (stableSort_perm cmp (l2.filter (fun t => !t.path.isEmpty)))
+                    have hnorm : pathSize (rest ++ [.list (RF.Sort.stableSort cmp
+                        (l2.filter (fun t => !t.path.isEmpty)))]) ≤ pathSize (rest ++ [.list l]) := by
+                      simp only [pathSize_append, pathSize, segSize]; omega
+                    split at h
+                    · exact Nat.le_trans (ih _ _ _ _ h) hnorm
+                    · simp only [Except.ok.injEq] at h; subst h; exact hnorm
+              · simp only [Except.ok.injEq] at h; subst h; exact Nat.le_refl _
 
 /-- On a non-empty well-formed path `normalize` neither panics nor runs out of the fuel the
 wrappers pass. -/
@@ -649,7 +905,23 @@ theorem normPath_ok (cmp : Tree → Tree → Ordering) :
                   exact ⟨.mk q, by simp [hq, Except.map]⟩
                 obtain ⟨l', hl'⟩ := this
                 rw [hl']
-                exact ⟨_, rfl⟩
+                simp only []
+                split
+                · rename_i hlt
+                  have hsz2 : treesSize l' ≤ treesSize l := by
+                    apply mapE_treesSize _ _ _ hl'
+                    intro t _ b hb
+                    obtain ⟨p2, hp2, rfl⟩ := except_map_ok hb
+                    have := normPath_size cmp _ _ _ _ _ hp2
+                    rw [treeSize_eq t]; simp only [treeSize]; omega
+                  have hk := treesSize_filter (fun t => !t.path.isEmpty) l'
+                  have hs := treesSize_perm (stableSort_perm cmp (l'.filter (fun t => !t.path.isEmpty)))
+                  have hlen := mapE_length _ _ _ hl'
+                  apply ih _ _ _ atRoot
+                  · simp only [pathSize_append, pathSize, segSize]; omega
+                  · exact norm_list_wf cmp fuel atRoot rest l l' hin hwl hl'
+                  · simp
+                · exact ⟨_, rfl⟩
             · exact ⟨_, rfl⟩
 
 /-- `normalize` on a top-level item keeps the imports (set equality of keyed leaves), the
@@ -714,43 +986,55 @@ theorem runLeaves_flatten_nest (its : List Item) (h : neRun its = true) :
     | nil => rfl
     | cons x l ih' => simp [runLeaves_cons, nestItem_leaves, ih']
 
-theorem uniqueByPath_sub : ∀ (xs seen : List Item), ∀ x ∈ uniqueByPath xs seen, x ∈ xs
-  | [], _, x, h => by simp [uniqueByPath] at h
-  | t :: ts, seen, x, h => by
-    simp only [uniqueByPath] at h
-    split at h
-    · exact List.mem_cons_of_mem _ (uniqueByPath_sub ts seen x h)
-    · rcases List.mem_cons.1 h with rfl | h
-      · simp
-      · exact List.mem_cons_of_mem _ (uniqueByPath_sub ts _ x h)
+theorem sameVis_key {a b : Option (List Char)} (h : sameVis a b = true) : a.getD [] = b.getD [] := by
+  cases a <;> cases b <;> simp_all [sameVis]
 
-theorem uniqueByPath_cover : ∀ (xs seen : List Item), ∀ x ∈ xs,
-    (∃ s ∈ seen, s.tree = x.tree) ∨ (∃ y ∈ uniqueByPath xs seen, y.tree = x.tree)
+theorem isRepeatedBy_leaves {s t : Item} (h : isRepeatedBy s t = true) :
+    itemLeaves s = itemLeaves t := by
+  simp only [isRepeatedBy, Bool.and_eq_true, Option.isNone_iff_eq_none, Bool.not_eq_true'] at h
+  obtain ⟨⟨⟨⟨⟨ht, hv⟩, hsa⟩, hta⟩, _⟩, _⟩ := h
+  simp only [itemLeaves, treeBEq_eq _ _ ht, sameVis_key hv, hsa, hta]
+
+theorem dedupItems_sub : ∀ (xs res : List Item), ∀ x ∈ dedupItems xs res, x ∈ res ∨ x ∈ xs
+  | [], _, x, h => by simp only [dedupItems] at h; exact Or.inl h
+  | t :: ts, res, x, h => by
+    simp only [dedupItems] at h
+    split at h
+    · rcases dedupItems_sub ts res x h with h | h
+      · exact Or.inl h
+      · exact Or.inr (List.mem_cons_of_mem _ h)
+    · rcases dedupItems_sub ts _ x h with h | h
+      · rcases List.mem_append.1 h with h | h
+        · exact Or.inl h
+        · simp only [List.mem_singleton] at h; subst h; exact Or.inr (by simp)
+      · exact Or.inr (List.mem_cons_of_mem _ h)
+
+theorem dedupItems_keeps : ∀ (xs res : List Item), ∀ x ∈ res, x ∈ dedupItems xs res
+  | [], _, x, h => by simpa only [dedupItems] using h
+  | t :: ts, res, x, h => by
+    simp only [dedupItems]
+    split
+    · exact dedupItems_keeps ts res x h
+    · exact dedupItems_keeps ts _ x (List.mem_append_left _ h)
+
+theorem dedupItems_cover : ∀ (xs res : List Item), ∀ x ∈ xs,
+    ∃ y ∈ dedupItems xs res, itemLeaves y = itemLeaves x
   | [], _, x, h => by simp at h
-  | t :: ts, seen, x, h => by
-    simp only [uniqueByPath]
+  | t :: ts, res, x, h => by
+    simp only [dedupItems]
     split
     · rename_i hs
       rcases List.mem_cons.1 h with rfl | h
-      · left
-        simp only [List.any_eq_true] at hs
+      · simp only [List.any_eq_true] at hs
         obtain ⟨s, hs, he⟩ := hs
-        exact ⟨s, hs, treeBEq_eq _ _ he⟩
-      · exact uniqueByPath_cover ts seen x h
+        exact ⟨s, dedupItems_keeps ts res s hs, isRepeatedBy_leaves he⟩
+      · exact dedupItems_cover ts res x h
     · rcases List.mem_cons.1 h with rfl | h
-      · right; exact ⟨x, by simp, rfl⟩
-      · rcases uniqueByPath_cover ts (seen ++ [t]) x h with ⟨s, hs, he⟩ | ⟨y, hy, he⟩
-        · rcases List.mem_append.1 hs with hs | hs
-          · left; exact ⟨s, hs, he⟩
-          · simp only [List.mem_singleton] at hs
-            subst hs
-            right; exact ⟨s, by simp, he⟩
-        · right; exact ⟨y, List.mem_cons_of_mem _ hy, he⟩
+      · exact ⟨x, dedupItems_keeps ts _ x (by simp), rfl⟩
+      · exact dedupItems_cover ts _ x h
 
-/-- `Item` granularity keeps the keyed leaf set when no import occurs twice with different
-visibility or attributes. -/
-theorem granularity_item_leaves (its : List Item) (hne : neRun its = true)
-    (hd : dupSameKey (runLeaves its) = true) :
+/-- `Item` granularity keeps the keyed leaf set (nested paths non-empty). -/
+theorem granularity_item_leaves (its : List Item) (hne : neRun its = true) :
     SetEq (runLeaves (flattenUseTrees .item its)) (runLeaves its) := by
   unfold flattenUseTrees
   have hxs := runLeaves_flatten_nest its hne
@@ -760,24 +1044,14 @@ theorem granularity_item_leaves (its : List Item) (hne : neRun its = true)
   · intro hl
     obtain ⟨y, hy, hly⟩ := mem_runLeaves.1 hl
     rw [← hxs]
-    exact mem_runLeaves.2 ⟨y, uniqueByPath_sub xs [] y hy, hly⟩
+    rcases dedupItems_sub xs [] y hy with h | h
+    · simp at h
+    · exact mem_runLeaves.2 ⟨y, h, hly⟩
   · intro hl
-    rw [← hxs] at hl hd
+    rw [← hxs] at hl
     obtain ⟨x, hx, hlx⟩ := mem_runLeaves.1 hl
-    rcases uniqueByPath_cover xs [] x hx with ⟨s, hs, _⟩ | ⟨y, hy, he⟩
-    · simp at hs
-    · refine mem_runLeaves.2 ⟨y, hy, ?_⟩
-      simp only [itemLeaves, List.mem_map] at hlx ⊢
-      obtain ⟨lf, hlf, rfl⟩ := hlx
-      refine ⟨lf, he ▸ hlf, ?_⟩
-      -- both keyed leaves are in the run: the keys agree
-      have h1 : (⟨y.vis.getD [], y.attrs, lf⟩ : ItemLeaf) ∈ runLeaves xs :=
-        mem_runLeaves.2 ⟨y, uniqueByPath_sub xs [] y hy, by
-          simp only [itemLeaves, List.mem_map]; exact ⟨lf, he ▸ hlf, rfl⟩⟩
-      simp only [dupSameKey, List.all_eq_true] at hd
-      have := hd _ h1 _ hl
-      simp at this
-      simp [this.1, this.2]
+    obtain ⟨y, hy, he⟩ := dedupItems_cover xs [] x hx
+    exact mem_runLeaves.2 ⟨y, hy, he ▸ hlx⟩
 
 theorem granularity_preserve (cmp : Tree → Tree → Ordering) (its : List Item) :
     withGranularity cmp .preserve its = .ok its := rfl
@@ -839,9 +1113,6 @@ theorem sharePrefix_true {sp : SharedPrefix} {a b : Item} (h : sharePrefix sp a 
       Option.isSome_iff_ne_none, ne_eq, Decidable.not_not, Bool.not_eq_true] at hc
     obtain ⟨⟨⟨⟨h1, h2⟩, h3⟩, h4⟩, h5⟩ := hc
     exact ⟨h3, h4, by simpa using h5, h1, h2, h⟩
-
-theorem sameVis_key {a b : Option (List Char)} (h : sameVis a b = true) : a.getD [] = b.getD [] := by
-  cases a <;> cases b <;> simp_all [sameVis]
 
 theorem mergeItem_fields {cmp sp} {a b a' : Item} (h : mergeItem cmp sp a b = .ok a') :
     a'.vis = a.vis ∧ a'.attrs = a.attrs ∧ a'.hasComment = a.hasComment := by
@@ -2495,8 +2766,8 @@ theorem granularity_safe (cmp : Tree → Tree → Ordering) (g : Granularity) (i
   | preserve => simp only [withGranularity, Except.ok.injEq] at h; subst h; exact SetEq.refl _
   | item =>
     simp only [withGranularity, Except.ok.injEq] at h; subst h
-    simp only [safeFor, Bool.and_eq_true] at hs
-    exact granularity_item_leaves its hs.1 hs.2
+    simp only [safeFor] at hs
+    exact granularity_item_leaves its hs
   | crate => exact (granularity_leaves cmp .crate .crate rfl its res h hs).1
   | module => exact (granularity_leaves cmp .module .module rfl its res h hs).1
   | one => exact (granularity_leaves cmp .one .one rfl its res h hs).1
@@ -2535,5 +2806,229 @@ theorem run_leaves (cmp : Tree → Tree → Ordering) (g : Granularity) (gt : Gr
     split
     · exact (flatten_map_sort_perm _ _).trans hg
     · exact hg
+
+/-! ### what `normalize` guarantees of its output (since it removes nested empty lists) -/
+
+mutual
+theorem wfLast_neSeg : ∀ (r : Bool) (s : Seg), wfLast r s = true → neSeg s = true
+  | r, .list ts, h => by simp only [wfLast] at h; simp only [neSeg]; exact wfTrees_neTrees r ts h
+  | _, .ident _ _, _ => rfl
+  | _, .slf _, _ => rfl
+  | _, .super _, _ => rfl
+  | _, .crate _, _ => rfl
+  | _, .glob, _ => rfl
+theorem wfTree_neTree : ∀ (r : Bool) (t : Tree), wfTree r t = true → neTree t = true
+  | r, .mk p, h => by
+    simp only [wfTree, Bool.and_eq_true] at h
+    simp only [neTree, Bool.and_eq_true]
+    exact ⟨h.1, wfPath_nePath r p h.2⟩
+theorem wfPath_nePath : ∀ (r : Bool) (p : List Seg), wfPath r p = true → nePath p = true
+  | _, [], _ => rfl
+  | r, [s], h => by
+    simp only [wfPath] at h
+    simp only [nePath, Bool.and_true]
+    exact wfLast_neSeg r s h
+  | r, s :: t :: q, h => by
+    simp only [wfPath, Bool.and_eq_true] at h
+    simp only [nePath, Bool.and_eq_true]
+    refine ⟨?_, ?_⟩
+    · have := innerOK_not_list h.1
+      cases s <;> simp_all [neSeg, isList]
+    · have := wfPath_nePath false (t :: q) h.2
+      simpa [nePath] using this
+theorem wfTrees_neTrees : ∀ (r : Bool) (ts : List Tree), wfTrees r ts = true → neTrees ts = true
+  | _, [], _ => rfl
+  | r, t :: ts, h => by
+    simp only [wfTrees, Bool.and_eq_true] at h
+    simp only [neTrees, Bool.and_eq_true]
+    exact ⟨wfTree_neTree r t h.1, wfTrees_neTrees r ts h.2⟩
+end
+
+theorem leafyTrees_of_forall : ∀ {ts : List Tree}, (∀ t ∈ ts, leafyTree t = true) → leafyTrees ts = true
+  | [], _ => by simp [leafyTrees]
+  | t :: ts, h => by
+    simp only [leafyTrees, Bool.and_eq_true]
+    exact ⟨h t (by simp), leafyTrees_of_forall (fun u hu => h u (by simp [hu]))⟩
+
+theorem leafySeg_of_not_list {s : Seg} (h : ∀ ts, s = .list ts → False) : leafySeg s = true := by
+  cases s <;> simp_all [leafySeg]
+
+/-- A declaration without attributes is normalised to a path without empty lists. -/
+theorem normPath_leafy (cmp : Tree → Tree → Ordering) :
+    ∀ (fuel : Nat) (hasAttrs hasVis : Bool) (path q : List Seg) (r : Bool), hasAttrs = false →
+      normPath cmp fuel hasAttrs hasVis path = .ok q → wfPath r path = true → leafyPath q = true := by
+  intro fuel
+  induction fuel with
+  | zero => intro _ _ _ _ _ _ h; simp [normPath] at h
+  | succ fuel ih =>
+    intro hasAttrs hasVis path q r ha h hwf
+    rw [normPath] at h
+    split at h
+    · simp at h
+    · rename_i last hlast
+      have hp := eq_dropLast_append hlast
+      generalize path.dropLast = rest at hp h
+      subst hp
+      rw [wfPath_append _ _ _ (by simp), wfPath_single, Bool.and_eq_true] at hwf
+      obtain ⟨hin, hwl⟩ := hwf
+      have hrest := innerAll_leafy hin
+      simp only [] at h
+      split at h
+      · simp only [Except.ok.injEq] at h; subst h; simp [leafyPath]
+      · rename_i hnotempty
+        split at h
+        · simp only [Except.ok.injEq] at h; subst h; simp [leafyPath]
+        · split at h
+          · simp only [Except.ok.injEq] at h; subst h; exact hrest
+          · split at h
+            · rename_i rename n hlr _ _
+              simp only [Except.ok.injEq] at h; subst h
+              have hp := eq_dropLast_append hlr
+              generalize rest.dropLast = init at hp
+              subst hp
+              rw [leafyPath_append, Bool.and_eq_true] at hrest
+              rw [leafyPath_append, hrest.1]
+              simp [leafyPath, leafySeg]
+            · split at h
+              · rename_i l _ _ _
+                split at h
+                · rename_i t ht
+                  obtain ⟨rfl, _⟩ := soleSplice_some ht
+                  simp only [wfLast, wfTrees, Bool.and_true] at hwl
+                  obtain ⟨htne, htwf⟩ := wfTree_path hwl
+                  exact ih _ _ _ _ r ha h (by rw [wfPath_append _ _ _ htne, hin, htwf]; rfl)
+                · split at h
+                  · simp at h
+                  · rename_i l2 hl2
+                    split at h
+                    · exact ih _ _ _ _ r ha h (norm_list_wf cmp fuel r rest l l2 hin hwl hl2)
+                    · rename_i hnlt
+                      simp only [Except.ok.injEq] at h; subst h
+                      rw [leafyPath_append, hrest]
+                      simp only [leafyPath, leafySeg, Bool.and_true, Bool.true_and, Bool.and_eq_true,
+                        Bool.not_eq_true', List.isEmpty_eq_false_iff]
+                      have hlen := mapE_length _ _ _ hl2
+                      have hl_ne : l ≠ [] := by
+                        intro he; subst he
+                        simp [isEmptyListSeg, ha] at hnotempty
+                      refine ⟨?_, ?_⟩
+                      · intro he
+                        have hz : (l2.filter (fun t => !t.path.isEmpty)).length = 0 := by
+                          have := (stableSort_perm cmp (l2.filter (fun t => !t.path.isEmpty))).length_eq
+                          rw [he] at this; simpa using this.symm
+                        have : 0 < l.length := List.length_pos_iff.2 hl_ne
+                        omega
+                      · apply leafyTrees_of_forall
+                        intro t ht
+                        obtain ⟨htl, _⟩ := mem_sorted_kept ht
+                        obtain ⟨t0, ht0, hf⟩ := mapE_mem _ _ _ hl2 t htl
+                        obtain ⟨p2, hp2, rfl⟩ := except_map_ok hf
+                        simp only [wfLast] at hwl
+                        obtain ⟨_, htwf⟩ := wfTree_path (wfTrees_mem hwl t0 ht0)
+                        simpa [leafyTree] using ih _ _ _ _ _ rfl hp2 htwf
+              · rename_i hnl
+                simp only [Except.ok.injEq] at h; subst h
+                rw [leafyPath_append, hrest]
+                simp [leafyPath, leafySeg_of_not_list hnl]
+
+theorem mapE_forall {α β ε} (f : α → Except ε β) (P : β → Prop) :
+    ∀ (l : List α) (l' : List β), mapE f l = .ok l' → (∀ a ∈ l, ∀ b, f a = .ok b → P b) →
+      ∀ b ∈ l', P b := by
+  intro l l' h hp b hb
+  obtain ⟨a, ha, hf⟩ := mapE_mem f l l' h b hb
+  exact hp a ha b hf
+
+theorem pairwiseB_true {α} (r : α → α → Bool) (h : ∀ x y, r x y = true) : ∀ l : List α, pairwiseB r l = true
+  | [] => rfl
+  | x :: l => by simp [pairwiseB, h, pairwiseB_true r h l]
+
+/-- Declarations as the parser builds them are normalised to declarations that satisfy the
+hypothesis of the granularity step for `Preserve`, `Item` and `Crate`. -/
+theorem normalized_safe (cmp : Tree → Tree → Ordering) (items normalized : List Item)
+    (hn : mapE (normalizeItem cmp) items = .ok normalized) (hwf : normalizable items = true) :
+    safeFor .preserve normalized = true ∧ safeFor .item normalized = true ∧
+      safeFor .crate normalized = true := by
+  have hall := mapE_forall (normalizeItem cmp)
+    (fun it' : Item => wfPath true it'.tree.path = true ∧
+      (it'.attrs = none → leafyPath it'.tree.path = true)) items normalized hn (by
+    intro it hit it' h
+    simp only [normalizable, List.all_eq_true, Bool.and_eq_true] at hwf
+    have hw := (hwf it hit).1
+    unfold normalizeItem at h
+    split at h
+    · simp at h
+    · rename_i p hp
+      simp only [Except.ok.injEq] at h; subst h
+      refine ⟨normPath_wf cmp _ _ _ _ _ true hp hw, ?_⟩
+      intro ha
+      simp only [] at ha
+      exact normPath_leafy cmp _ _ _ _ _ true (by simp [ha]) hp hw)
+  refine ⟨rfl, ?_, ?_⟩
+  · simp only [safeFor, neRun, List.all_eq_true]
+    intro it' hit'
+    exact wfPath_nePath true _ (hall it' hit').1
+  · simp only [safeFor, safeRun, Bool.and_eq_true, List.all_eq_true]
+    refine ⟨?_, pairwiseB_true _ (fun _ _ => rfl) _⟩
+    intro it' hit'
+    rw [List.mem_filter] at hit'
+    simp only [mergeable, Bool.and_eq_true, Bool.not_eq_true', Option.isNone_iff_eq_none] at hit'
+    simp only [wfItem, Bool.and_eq_true]
+    exact ⟨(hall it' hit'.1).1, (hall it' hit'.1).2 hit'.2.2⟩
+
+/-- The groups the arm renders are, flattened, a permutation of what the granularity step returned. -/
+theorem run_perm (cmp : Tree → Tree → Ordering) (g : Granularity) (gt : GroupTactic)
+    (reorder : Bool) (items normalized : List Item) (groups : List (List Item))
+    (hn : mapE (normalizeItem cmp) items = .ok normalized)
+    (h : rewriteUseRun cmp g gt reorder items = .ok groups) :
+    ∃ merged, withGranularity cmp g normalized = .ok merged ∧ groups.flatten.Perm merged := by
+  unfold rewriteUseRun at h
+  rw [hn] at h
+  simp only at h
+  split at h
+  · simp at h
+  · rename_i merged hm
+    simp only [Except.ok.injEq] at h
+    subst h
+    refine ⟨merged, hm, ?_⟩
+    rw [flatten_filter_nonempty]
+    have hg : (match gt with
+        | .stdExternalCrate => groupImports merged
+        | _ => [merged]).flatten.Perm merged := by
+      cases gt
+      · simp
+      · exact (group_is_partition merged).2.1
+      · simp
+    split
+    · exact (flatten_map_sort_perm _ _).trans hg
+    · exact hg
+
+/-- Whole arm, merging granularities: the items with attributes or comments are rendered exactly
+as they were normalised (none merged, none split, none lost), up to their order. -/
+theorem run_protected (cmp : Tree → Tree → Ordering) (g : Granularity) (sp : SharedPrefix)
+    (hg : spOf g = some sp) (gt : GroupTactic) (reorder : Bool)
+    (items normalized : List Item) (groups : List (List Item))
+    (hn : mapE (normalizeItem cmp) items = .ok normalized)
+    (h : rewriteUseRun cmp g gt reorder items = .ok groups) :
+    (groups.flatten.filter isProt).Perm (normalized.filter isProt) := by
+  obtain ⟨merged, hm, hp⟩ := run_perm cmp g gt reorder items normalized groups hn h
+  have hloop : mergeLoop cmp g sp normalized [] = .ok merged := by
+    cases g <;> simp [spOf] at hg <;> subst hg <;> exact hm
+  have := mergeLoop_prot cmp g sp normalized [] merged hloop
+  simp only [List.filter_nil, List.nil_append] at this
+  rw [← this]
+  exact hp.filter _
+
+/-- The arm does not panic on well-formed, non-empty declarations (any configuration). -/
+theorem run_total (cmp : Tree → Tree → Ordering) (g : Granularity) (gt : GroupTactic)
+    (reorder : Bool) (items : List Item)
+    (hwf : ∀ it ∈ items, wfPath true it.tree.path = true ∧ it.tree.path ≠ []) :
+    ∃ groups, rewriteUseRun cmp g gt reorder items = .ok groups := by
+  obtain ⟨normalized, hn⟩ := mapE_ok_of_forall (normalizeItem cmp) items
+    (fun it hit => normalizeItem_ok cmp it (hwf it hit).1 (hwf it hit).2)
+  obtain ⟨merged, hm⟩ := granularity_total cmp g normalized
+  unfold rewriteUseRun
+  rw [hn]
+  simp only [hm]
+  exact ⟨_, rfl⟩
 
 end RF.Lemmas.Imports
